@@ -886,7 +886,7 @@ def dnskey_rdataset_to_cdnskey_rdataset(
         res.append(
             CDNSKEY(
                 rdclass=rdataset.rdclass,
-                rdtype=rdataset.rdtype,
+                rdtype=dns.rdatatype.CDNSKEY,
                 flags=rdata.flags,
                 protocol=rdata.protocol,
                 algorithm=rdata.algorithm,
